@@ -70,7 +70,7 @@ Step make_param_step(Rng &r, const Profile &pf, const std::string &group, const 
     st.s.push_back(badKind == 0 ? std::string() : name);
     st.s.push_back(gen_text(r, gen_desc_len(r, pf.max_desc)));
     st.i.push_back(type);
-    st.i.push_back(r.chance(1, 4));
+    { unsigned k = static_cast<unsigned>(r.below(16)); st.i.push_back(k < 10 ? 0 : k < 13 ? 1 : k < 14 ? 2 : 3); } // lock mode
     st.i.push_back(r.chance(1, 2));
     std::vector<int64_t> dims;
     int64_t nd = -1;
